@@ -1,6 +1,6 @@
 SPEC = {
-    "corr": [{"kind": "sflow", "quick": 16000, "thorough": 300000},
-             {"kind": "dissect", "quick": 16000, "thorough": 200000}],
+    "corr": [{"kind": "sflow", "quick": 40000, "thorough": 600000},
+             {"kind": "dissect", "quick": 40000, "thorough": 600000}],
     "rule": "sFlow v5 datagrams encoded from an abstract datagram by the harness's own XDR encoder: 0..5 samples of "
             "flow / counter / expanded / unknown / enterprise type, 0..4 records each (raw header Ethernet(+-802.1Q)/IPv4/IPv6 x "
             "TCP/UDP/ICMP with header lengths up to 1500 and XDR padding, extended switch, extended router v4/v6, the six "
